@@ -418,6 +418,7 @@ fn build_clone_for_enum(
     };
     Ok(quote! {
         #[automatically_derived]
+        #[allow(non_snake_case)]
         impl #impl_g #trait_ for #this_ty #wheres {
             fn clone(&self) -> Self {
                 match #this {
